@@ -77,7 +77,7 @@ func RaceChild(args []string) {
 	}
 }
 
-var raceFrame = regexp.MustCompile(`(?m)^  (github\.com/segmentio/encoding/[^\s(]+)\(`)
+var raceFrame = regexp.MustCompile(`(?m)^  (github\.com/segmentio/encoding/\S+)\(`)
 
 func raceBody(c *explore.Ctx) {
 	ds := drivers()
